@@ -3,6 +3,7 @@ package jsonschema
 import (
 	"encoding/json"
 	"fmt"
+	"net/url"
 	"strings"
 
 	"github.com/grafana/codejen"
@@ -291,7 +292,13 @@ func (jenny Schema) formatRef(typeDef ast.Type) Definition {
 }
 
 func (jenny Schema) defaultRefFormatter(ref ast.RefType) string {
-	return fmt.Sprintf("#/definitions/%s", ref.ReferredType)
+	return fmt.Sprintf("#/definitions/%s", EscapeReferenceToken(ref.ReferredType))
+}
+
+// EscapeReferenceToken escapes the name of a definition for use in a `$ref`:
+// as a JSON Pointer token (`~` and `/`), within a URI fragment.
+func EscapeReferenceToken(name string) string {
+	return url.PathEscape(strings.NewReplacer("~", "~0", "/", "~1").Replace(name))
 }
 
 func (jenny Schema) formatEnum(typeDef ast.Type) Definition {
